@@ -61,6 +61,10 @@ class Console:
         self.requests = []     # (time, connection, request class name)
         self.commands = []
         self.temp = 22.0
+        self.fragment = False
+        self.noisy = False
+        self.rng = random.Random(0)
+        self.pending = {}
 
     def frame(self, msg):
         reg, H = self.reg, self.M["hdr"]
@@ -73,11 +77,53 @@ class Console:
         crc = reg.checksum_calculator.calculate(hdr.checksum_data + body)
         return bytes(hdr.header_bytes) + body + bytes(crc)
 
-    def push(self, name, msg):
+    def push(self, name, msg, raw=None):
         rd = self.net.readers.get(name)
         w = self.net.writers.get(name)
-        if rd is not None and w is not None and not w.closed and not rd.at_eof():
-            rd.feed_data(self.frame(msg))
+        if rd is None or w is None or w.closed or rd.at_eof():
+            return
+        data = raw if raw is not None else self.frame(msg)
+        if not self.fragment:
+            rd.feed_data(data)
+            return
+        # TCP segmentation: the frame arrives in pieces, a little apart (order preserved: one queue per connection)
+        cuts = sorted(self.rng.sample(range(1, len(data)), min(len(data) - 1, self.rng.randint(1, 4)))) if len(data) > 1 else []
+        parts = [data[a:b] for a, b in zip([0] + cuts, cuts + [len(data)])]
+        q = self.pending.setdefault(name, [])
+        first = not q
+        q.extend(parts)
+        if first:
+            self.loop.call_later(0.0005, self._deliver, name)
+
+    def _deliver(self, name):
+        q = self.pending.get(name) or []
+        rd, w = self.net.readers.get(name), self.net.writers.get(name)
+        if not q or rd is None or w is None or w.closed or rd.at_eof():
+            self.pending[name] = []
+            return
+        rd.feed_data(q.pop(0))
+        if q:
+            self.loop.call_later(0.0005, self._deliver, name)
+
+    def extras(self, name):
+        """Frames nobody asked for: duplicates of earlier answers, an unknown type, a frame addressed to somebody else."""
+        M, H = self.M, self.M["hdr"]
+        k = self.rng.random()
+        if k < 0.3:
+            self.push(name, M["ext"].ExtendedMessage(M["ver"].ConsoleVersionMessage(False, ["1.0.0"])))
+        elif k < 0.5:
+            self.push(name, self.ac_status())
+        elif k < 0.65:
+            self.push(name, self.zone_status())
+        elif k < 0.8:
+            self.push(name, self.timer_status())
+        else:
+            # unknown message type 0x99 with a well-formed frame
+            cls = H.At4Header if self.g == 4 else H.At5Header
+            header = cls(H.ADDRESS_CLIENT, H.ADDRESS_AIRTOUCH, 1, 0x99, 3)
+            hdr = self.reg.header_encoder.encode(header)
+            body = b"\x01\x02\x03"
+            self.push(name, None, raw=bytes(hdr.header_bytes) + body + bytes(self.reg.checksum_calculator.calculate(hdr.checksum_data + body)))
 
     def _watch(self):
         """Wake the console whenever the client writes (instead of polling through hours of virtual idle time)."""
@@ -167,6 +213,8 @@ class Console:
         self.requests.append((self.loop.time(), conn, name))
         if self.silent:
             return
+        if self.noisy and self.rng.random() < 0.6:
+            self.extras(conn)          # before the answer
         if name == "ConsoleVersionRequest":
             self.push(conn, M["ext"].ExtendedMessage(M["ver"].ConsoleVersionMessage(False, ["1.0.0"])))
         elif name in ("GroupNamesRequest", "ZoneNamesRequest"):
@@ -180,6 +228,8 @@ class Console:
             self.push(conn, self.timer_status())
         elif name in ("GroupStatusRequest", "ZoneStatusRequest"):
             self.push(conn, self.zone_status())
+        if self.noisy and self.rng.random() < 0.4:
+            self.extras(conn)          # after the answer
 
 
 def client_tasks(loop):
@@ -203,6 +253,9 @@ def one_run(seed):
         import pyairtouch.comms.socket as S
         zones = {0: "Living", 1: "Bed"} if rng.random() < 0.8 else ({0: "Only"} if g == 4 else {})
         con = Console(g, net, loop, zones)
+        con.rng = rng
+        con.fragment = rng.random() < 0.4
+        con.noisy = rng.random() < 0.4
         con._watch()
         ct = loop.create_task(con.serve())
         M = con.M
@@ -241,8 +294,8 @@ def one_run(seed):
                     note("C09", f"model after init: zones {sorted(z.zone_id for z in zs)} ACs {len(at.air_conditioners)}; console described {sorted(zones)} / 1")
                 for z in zs:
                     z.subscribe(slow_sub)
-            elif expect_answer and dt < 5.0 - 1e-6:
-                note("C09", f"init gave up after {dt} s")
+            elif expect_answer:
+                note("C09", f"init returned False after {dt} s against a console that answers every request (state {at._state.name})")
             return r
 
         async def do_shutdown(check=True):
